@@ -42,8 +42,27 @@ class History:
         self.inst = inst; self.steps = steps; self.label = label
         self.runs = []; self.rows = []; self.snaps = []; self.problems = []; self.dirmap = {}
 
-def project(snap, dirmap, inst, pre):
+def audit_project(rec, exp):
+    """real audit record (parsed JSON) -> abstract record [task, ups] of TaskFS.tla"""
+    if not rec or not rec.get("ProcessName"):
+        return dict(task="", ups=[])
+    outs = {path_id(v) for v in (rec.get("OutFiles") or {}).values()}
+    t = None
+    for x in exp["tasks"]:
+        if outs and outs <= set(x["outs"]) and x["proc"] == rec["ProcessName"]:
+            t = x
+    if t is None:
+        return dict(task="?" + rec.get("ProcessName", ""), ups=[])
+    ups = []
+    upstream = {path_id(k): v for k, v in (rec.get("Upstream") or {}).items()}
+    prod = {o for x in exp["tasks"] for o in x["outs"]}
+    for i in t["ins"]:
+        ups.append(audit_project(upstream.get(i), exp) if i in upstream and i in prod else dict(task="", ups=[]))
+    return dict(task=t["key"], ups=ups)
+
+def project(snap, dirmap, inst, pre, exp=None):
     final, kind, audits, extras, tdirs, tmpfiles, unknown = [], {}, [], [], [], {}, []
+    auditrec = {}
     extra_names = set()
     for p, v in snap.items():
         parts = p.split("/")
@@ -65,10 +84,16 @@ def project(snap, dirmap, inst, pre):
             txt = v.get("text") or ""
             kind[fid] = "complete" if txt.endswith("END %s\n" % fid) else ("user" if fid in pre and txt.startswith("USER") else "partial")
         elif parts[0] == "o" and p.endswith(".audit.json"):
-            audits.append(path_id(p[:-len(".audit.json")]))
+            fid = path_id(p[:-len(".audit.json")])
+            audits.append(fid)
+            if exp is not None:
+                try:
+                    auditrec[fid] = audit_project(json.loads(v.get("text") or "null"), exp)
+                except ValueError:
+                    auditrec[fid] = dict(task="?unparsable", ups=[])
         elif p not in ("completed.marker", "wf2.log", "wf.log"):
             extras.append(p)
-    return dict(final=sorted(final), kind=kind, audits=sorted(audits), extras=sorted(extras), tdirs=sorted(set(tdirs)),
+    return dict(final=sorted(final), kind=kind, audits=sorted(audits), auditrec=auditrec, extras=sorted(extras), tdirs=sorted(set(tdirs)),
                 tmpfiles={k: sorted(v) for k, v in tmpfiles.items()}, unknown=sorted(set(unknown)))
 
 FAILMAP = [("Existing temp folders found", "fail.tmp"), ("Command failed", "fail.cmd"), ("Missing output temp-file", "fail.ensure"),
@@ -158,12 +183,15 @@ def run_history(hist, timeout=40):
                     rows = [rows[0], dict(e="extkill")]
                 if not crashed:
                     rows.append(dict(e="exit", rc=rr.rc if rr.rc is not None else -1, completed=rr.completed))
-                pr = project(rr.snapshot, hist.dirmap, inst, pre)
+                pr = project(rr.snapshot, hist.dirmap, inst, pre, getattr(hist, "exp", None))
                 hist.snaps.append(pr)
                 if step[0] != "kill":
-                    rows.append(dict(e="snap", **{k: pr[k] for k in ("final", "kind", "audits", "extras", "tdirs", "tmpfiles")}))
+                    rows.append(dict(e="snap", **{k: pr[k] for k in ("final", "kind", "audits", "auditrec", "extras", "tdirs", "tmpfiles")}))
                 hist.rows += rows
                 first = False
+            elif step[0] == "spec":      # change the run mode / targets of the workflow program between runs
+                w = json.load(open(os.path.join(d, "wf.json"))); w.update(step[1])
+                json.dump(w, open(os.path.join(d, "wf.json"), "w"))
             elif step[0] == "cleanup":
                 had = False
                 for p in glob.glob(os.path.join(d, "_scipipe_tmp*")):
@@ -270,4 +298,8 @@ def file_monitors(hist, exp, own_pre=None):
         for fid, k in pr["kind"].items():
             if k == "partial":
                 out.append(("C01", "run %d of history %s left an incomplete file at final path o/%s.txt" % (i + 1, hist.label, fid)))
+        # C10: every output finalized by a task is accompanied by its audit file (also right after a kill)
+        for fid in pr["final"]:
+            if fid in exp_by_out and fid not in pre and fid not in pr["audits"]:
+                out.append(("C10", "after run %d of history '%s' the finalized output o/%s.txt has no audit file" % (i + 1, hist.label, fid)))
     return out
